@@ -170,13 +170,14 @@ def mutates_when_refused(kind, cur_shape, shape):
 
 
 # ------------------------------------------------------------------ input classes of the findings
-def config_finding(kind, layout):
+def config_findings(kind, layout):
     sk, _ = structure(kind)
+    out = []
     if kind not in LEGACY and sk == "ls" and layout == "col":
-        return "C20-colmajor-clipped-strides-clamped"
+        out.append("C20-colmajor-clipped-strides-clamped")
     if kind == "ls_fb":
-        return "C20-clipped-fixed-buffer-default-shape-clamped"     # every nm::cast to this type default-constructs it first
-    return None
+        out.append("C20-clipped-fixed-buffer-default-shape-clamped")     # every nm::cast to this type default-constructs it first
+    return out
 
 
 def step_finding(kind, step, before):
@@ -419,7 +420,7 @@ class C20(Prop):
         # histories are constructed outside the input classes of the excluded (known) findings: a step that would enter such a
         # class is replaced, a configuration that lies inside one as a whole is not drawn
         excl = self._excl
-        configs = [c for c in CONFIGS if config_finding(*c) not in excl] or CONFIGS
+        configs = [c for c in CONFIGS if not (set(config_findings(*c)) & excl)] or CONFIGS
 
         @st.composite
         def hist(draw):
@@ -499,14 +500,17 @@ class C20(Prop):
     def _finding(self, case):
         if case["op"] != "hist":
             return None
-        f = config_finding(case["kind"], case.get("layout", "row"))
-        if f:
-            return f
+        fs = []
+        fs += config_findings(case["kind"], case.get("layout", "row"))
         for s_, info, before, _ in walk(case):
             f = step_finding(case["kind"], s_, before)
-            if f:
+            if f and f not in fs:
+                fs.append(f)
+        # a history may enter several classes: one that is still a listed (known) finding decides
+        for f in fs:
+            if f in self._excl:
                 return f
-        return None
+        return fs[0] if fs else None
 
     def excluded(self, case):
         if case.get("_witness"):
